@@ -105,6 +105,10 @@ def map_after(case):
     """Plain map semantics: list of dicts (state after each batch)."""
     cur, res = {}, []
     for b in case["batches"]:
+        if b.get("setroot") is not None:        # the instance is pointed back at an earlier root
+            cur = dict(res[b["setroot"]])
+            res.append(dict(cur))
+            continue
         for k, v in zip(b["k"], b["v"]):
             if v == DEFAULT:
                 cur.pop(k, None)
@@ -244,16 +248,57 @@ def hx_or_dash(s):
 def driver_case_text(c, o):
     """C10 records of one case (see harness/engines/trie/driver.ml)."""
     lines = ["Q " + " ".join(c["q"])]
-    blevel = bool(c.get("dump")) and o.get("upd") and all(b["commit"] for b in c["batches"])
+    blevel = bool(c.get("dump")) and o.get("upd") and all(b["commit"] or b.get("setroot") is not None for b in c["batches"])
     if blevel:
-        lines.append("L %d" % (1 if c.get("atomic") else 0))
+        cl = c.get("cache_limit")
+        lines.append("L %d %d" % (1 if c.get("atomic") else 0, 257 if cl is None else cl))
     for bi, (b, r, g) in enumerate(zip(c["batches"], o["roots"], o["gets"])):
-        lines.append("B " + " ".join("%s %s" % (k, "-" if v == DEFAULT else v) for k, v in zip(b["k"], b["v"])))
+        if b.get("setroot") is not None:
+            lines.append("SR %d" % b["setroot"])
+        else:
+            lines.append("B " + " ".join("%s %s" % (k, "-" if v == DEFAULT else v) for k, v in zip(b["k"], b["v"])))
         lines.append("O " + hx_or_dash(r) + " " + " ".join(hx_or_dash(x) for x in g))
         if blevel:
             lines.append("U " + " ".join("%s:%s" % (k, v) for k, v in o["upd"][bi]))
-            lines.append("C")
+            lines.append("K " + " ".join("%s:%s" % (k, v) for k, v in (o.get("cache") or [[]] * (bi + 1))[bi]))
+            if b.get("setroot") is None:
+                lines.append("C")
     return lines
+
+
+CACHE_LIMITS = [0, 4, 244, 248, 250, 252, 253, 256, 257]
+
+
+def cache_case(rng, hashname):
+    """Histories under a non-default Trie.CacheHeightLimit with the same instance pointed back at
+    earlier committed roots (SetRoot-style) between the updates; every update is committed."""
+    shape = rng.choice(["top", "top", "mixed", "deep"])
+    keys, shape = universe(rng, rng.choice([4, 6, 8, 12]), shape)
+    if rng.random() < 0.5:
+        # two keys under several first nibbles: interior batches at height 252
+        base = bytearray(keys[0])
+        more = set(keys)
+        for n in rng.sample(range(16), rng.choice([2, 4, 8])):
+            for low in (0x00, 0x08):
+                b = bytearray(base)
+                b[0] = (n << 4) | low
+                more.add(bytes(b))
+        keys = sorted(more)
+    nb = rng.choice([3, 4, 5, 6, 7])
+    batches = []
+    first = sorted(rng.sample(keys, max(2, len(keys) * 3 // 4)))
+    batches.append({"k": [k.hex() for k in first], "v": [rand_val(rng) for _ in first], "commit": True})
+    for _ in range(nb - 1):
+        if rng.random() < 0.35:
+            batches.append({"k": [], "v": [], "commit": False, "setroot": rng.randrange(len(batches))})
+            continue
+        sub = sorted(rng.sample(keys, rng.randrange(1, min(4, len(keys)) + 1)))
+        batches.append({"k": [k.hex() for k in sub],
+                        "v": [DEFAULT if rng.random() < 0.25 else rand_val(rng) for _ in sub], "commit": True})
+    extra = {flip(rng.choice(keys), [rng.choice(DEEP + TOP)])}
+    return {"hash": hashname, "atomic": rng.random() < 0.15, "batches": batches,
+            "q": [k.hex() for k in sorted(set(keys) | extra)], "proofs": 0, "shape": "cache",
+            "cache_limit": rng.choice(CACHE_LIMITS)}
 
 
 def run_engine_safe(ctx, binpath, test, cases, tag):
